@@ -76,11 +76,13 @@ pub fn replay_one(cx: &mut Cx, name: &str, s: usize, occ: u64) {
 
 pub fn run(cfg: &Cfg) -> Result<Outcome, String> {
     let stats = run_sharded(cfg, |cx| {
-        let noise_n: usize = if cx.is_thorough() { 256 } else { 64 };
-        let random_n: u64 = cx.budget(160_000_000, 4_000_000_000);
+        let noise_n: usize = if cx.miri { 2 } else if cx.is_thorough() { 256 } else { 64 };
+        let random_n: u64 = if cx.miri { 200 } else { cx.budget(160_000_000, 4_000_000_000) };
+        let squares: Vec<usize> = if cx.miri { vec![0, 27, 63] } else { cx.mine(64) };
+        let max_subsets: u64 = if cx.miri { 24 } else { u64::MAX };
         let mut digest = 0u64;
         // ---- sliders: every subset of the relevant-blocker mask x noise in the irrelevant bits
-        for s in cx.mine(64) {
+        for s in squares.clone() {
             for rook in [true, false] {
                 let dirs: &[(i32, i32)] = if rook { &ROOK_D } else { &BISHOP_D };
                 let rel = geom::relevant_mask(s, dirs);
@@ -99,7 +101,7 @@ pub fn run(cfg: &Cfg) -> Result<Outcome, String> {
                     };
                     noises.push(r & irrelevant);
                 }
-                for k in 0..(1u64 << nbits) {
+                for k in 0..(1u64 << nbits).min(max_subsets) {
                     let sub = deposit(rel, k);
                     for (ni, &nz) in noises.iter().enumerate() {
                         let occ = sub | (nz & irrelevant);
@@ -111,7 +113,7 @@ pub fn run(cfg: &Cfg) -> Result<Outcome, String> {
                     }
                     cx.distinct(mix(mix(s as u64, rook as u64), sub));
                 }
-                cx.count_n(if rook { "rook_relevant_subsets" } else { "bishop_relevant_subsets" }, 1u64 << nbits);
+                cx.count_n(if rook { "rook_relevant_subsets" } else { "bishop_relevant_subsets" }, (1u64 << nbits).min(max_subsets));
             }
         }
         // ---- sliders: random / sparse / dense occupancies on random squares
@@ -128,7 +130,7 @@ pub fn run(cfg: &Cfg) -> Result<Outcome, String> {
             cx.count("random_occupancies");
         }
         // ---- exhaustive small domains (done by shard 0 .. each shard takes a slice of `a`)
-        for a in cx.mine(64) {
+        for a in squares.clone() {
             let sa = Square::ALL[a];
             let checks: [(&'static str, Result<BitBoard, String>, u64); 4] = [
                 ("knight", guard(|| get_knight_moves(sa)), geom::leaper(a, &KNIGHT_D)),
@@ -170,7 +172,7 @@ pub fn run(cfg: &Cfg) -> Result<Outcome, String> {
                     }
                 }
                 let nfront = front.count_ones();
-                let noise_q = if cx.is_thorough() { 256 } else { 24 };
+                let noise_q = if cx.miri { 3 } else if cx.is_thorough() { 256 } else { 24 };
                 for k in 0..(1u64 << nfront) {
                     let sub = deposit(front, k);
                     for ni in 0..noise_q {
